@@ -592,6 +592,7 @@ struct Gen {
       }
       case OP_SMALL_PRODUCT: {
         int a = new_input_zv(mod, 1, small_bits(n), -1, true), b = new_input_zv(mod, 1, small_bits(n));
+        if (r.chance(10, 100)) b = a;  // a square: the very same buffer as both factors
         // operands are copied into scratch before the output is written: res may be one of them (acc <- s*acc chains)
         uint64_t al = r.below(100);
         set(0, al < 12 ? a : al < 24 ? b : new_out(T_ZV, mod, 1), 1);
@@ -979,7 +980,7 @@ struct Gen {
       c.p[0] = r.next() >> 8;
       c.p[1] = (uint64_t)r.range(6, 18);
       c.p[2] = cfg.ntt120 && r.chance(1, 3);
-      c.p[3] = (uint64_t)r.range(3, cfg.max_log2n + 1);
+      c.p[3] = r.chance(10, 100) ? (uint64_t)r.range(12, 14) : (uint64_t)r.range(3, cfg.max_log2n + 1);  // dimensions 2..2^p3, small and large mixed
       return push_call(c);
     }
     if (lk == 8) {
